@@ -296,6 +296,10 @@ def observed_heavy_graph(moldata):
             g.add_edge(a, b, order=o)
     nh_all = [n for n, d in nodes.items() if d.get('element') == 'H']
     for h in nh_all:
+        if len(hs.get(h, [])) == 0 and nodes[h].get('single_h_frag'):
+            # a single-hydrogen *fragment* for which the string offers no compatible descriptor
+            # stays unbonded by the input's own doing; outside the hydrogen clause
+            continue
         if len(hs.get(h, [])) != 1:
             h_ok = False
     return g, h_ok, hs
